@@ -19,6 +19,7 @@ import (
 	"go/token"
 	"os"
 	"path/filepath"
+	"regexp"
 	"sort"
 	"strings"
 )
@@ -31,19 +32,30 @@ type edit struct {
 }
 
 type rewriter struct {
-	fset  *token.FileSet
-	file  *token.File
-	src   []byte
-	edits []edit
-	errs  []string
-	nsel  int
-	skip  map[ast.Node]bool
-	usesV bool
+	fset      *token.FileSet
+	file      *token.File
+	src       []byte
+	edits     []edit
+	errs      []string
+	nsel      int
+	skip      map[ast.Node]bool
+	skipDeep  map[ast.Node]bool
+	chanNames map[string]bool // identifiers (variables, parameters, fields) declared in this file with a channel type
+	usesV     bool
 }
 
 func (r *rewriter) off(p token.Pos) int { return r.file.Offset(p) }
 func (r *rewriter) text(n ast.Node) string {
 	return string(r.src[r.off(n.Pos()):r.off(n.End())])
+}
+
+var timeRe = regexp.MustCompile(`\btime\.(Now|Since|Sleep|After|Tick|NewTicker|NewTimer)\b`)
+
+// ctext is text for the operands of a select case: the whole case header is replaced in one edit, so the time.* shims are
+// substituted in the text and the walker does not descend into the operands.
+func (r *rewriter) ctext(n ast.Node) string {
+	r.skipDeep[n] = true
+	return timeRe.ReplaceAllString(r.text(n), "vsched.$1")
 }
 func (r *rewriter) replace(s, e token.Pos, t string) {
 	r.edits = append(r.edits, edit{r.off(s), r.off(e), t})
@@ -59,6 +71,9 @@ func isArrow(e ast.Expr) (*ast.UnaryExpr, bool) {
 }
 
 func (r *rewriter) visit(n ast.Node) bool {
+	if n != nil && r.skipDeep[n] {
+		return false
+	}
 	if n == nil || r.skip[n] {
 		return true
 	}
@@ -99,10 +114,21 @@ func (r *rewriter) visit(n ast.Node) bool {
 			r.replace(x.End(), x.End(), ")")
 		}
 	case *ast.RangeStmt:
-		// a range over a channel is recognised by the name of the ranged identifier (…ch, …chan, …channel)
-		if id, ok := x.X.(*ast.Ident); ok {
-			ln := strings.ToLower(id.Name)
-			if strings.HasSuffix(ln, "ch") || strings.HasSuffix(ln, "chan") || strings.HasSuffix(ln, "channel") {
+		// a range over a channel is recognised by the ranged identifier: declared in this file with a channel type or
+		// assigned from make(chan ...), or named …ch, …chan, …channel
+		rangedName, rangedText := "", ""
+		switch rx := x.X.(type) {
+		case *ast.Ident:
+			rangedName, rangedText = rx.Name, rx.Name
+		case *ast.SelectorExpr:
+			if r.chanNames[rx.Sel.Name] {
+				rangedName, rangedText = rx.Sel.Name, r.text(rx)
+			}
+		}
+		if rangedName != "" {
+			id := struct{ Name string }{rangedText}
+			ln := strings.ToLower(rangedName)
+			if r.chanNames[rangedName] || strings.HasSuffix(ln, "ch") || strings.HasSuffix(ln, "chan") || strings.HasSuffix(ln, "channel") {
 				if x.Value != nil {
 					r.errorf(x.Pos(), "range over channel with two variables")
 					break
@@ -131,9 +157,9 @@ func (r *rewriter) visit(n ast.Node) bool {
 			switch id.Name {
 			case "time":
 				switch x.Sel.Name {
-				case "Now", "Since", "Sleep":
+				case "Now", "Since", "Sleep", "After", "Tick", "NewTicker", "NewTimer", "Ticker", "Timer":
 					r.replace(id.Pos(), id.End(), "vsched")
-				case "After", "Tick", "NewTicker", "NewTimer", "AfterFunc":
+				case "AfterFunc":
 					r.errorf(x.Pos(), "time.%s is not supported by the instrumenter", x.Sel.Name)
 				}
 			case "sync":
@@ -168,7 +194,7 @@ func (r *rewriter) rewriteSelect(s *ast.SelectStmt) {
 		header := fmt.Sprintf("case %d:", idx)
 		switch cm := cc.Comm.(type) {
 		case *ast.SendStmt:
-			pro = append(pro, fmt.Sprintf("%s := vsched.NewSend(%s, %s)", name, r.text(cm.Chan), r.text(cm.Value)))
+			pro = append(pro, fmt.Sprintf("%s := vsched.NewSend(%s, %s)", name, r.ctext(cm.Chan), r.ctext(cm.Value)))
 			r.skip[cm] = true
 		case *ast.ExprStmt:
 			u, ok := isArrow(cm.X)
@@ -176,7 +202,7 @@ func (r *rewriter) rewriteSelect(s *ast.SelectStmt) {
 				r.errorf(cm.Pos(), "unsupported select case")
 				continue
 			}
-			pro = append(pro, fmt.Sprintf("%s := vsched.NewRecv(%s)", name, r.text(u.X)))
+			pro = append(pro, fmt.Sprintf("%s := vsched.NewRecv(%s)", name, r.ctext(u.X)))
 			r.skip[u] = true
 		case *ast.AssignStmt:
 			u, ok := isArrow(cm.Rhs[0])
@@ -184,7 +210,7 @@ func (r *rewriter) rewriteSelect(s *ast.SelectStmt) {
 				r.errorf(cm.Pos(), "unsupported select case")
 				continue
 			}
-			pro = append(pro, fmt.Sprintf("%s := vsched.NewRecv(%s)", name, r.text(u.X)))
+			pro = append(pro, fmt.Sprintf("%s := vsched.NewRecv(%s)", name, r.ctext(u.X)))
 			r.skip[u] = true
 			r.skip[cm] = true
 			op := cm.Tok.String()
@@ -215,6 +241,45 @@ func (r *rewriter) rewriteSelect(s *ast.SelectStmt) {
 	r.replace(s.Select, s.Body.Lbrace+1, strings.Join(pro, "; ")+"; switch vsched.Select("+args+") {")
 }
 
+// collectChanNames lists the names declared in the file with a channel type (var/param/field declarations) or assigned
+// from make(chan ...).  Name-based and scope-insensitive, which is enough to recognise `for x := range jobs`.
+func collectChanNames(f *ast.File) map[string]bool {
+	out := map[string]bool{}
+	isChanType := func(e ast.Expr) bool { _, ok := e.(*ast.ChanType); return ok }
+	isMakeChan := func(e ast.Expr) bool {
+		c, ok := e.(*ast.CallExpr)
+		if !ok || len(c.Args) == 0 {
+			return false
+		}
+		id, ok := c.Fun.(*ast.Ident)
+		return ok && id.Name == "make" && isChanType(c.Args[0])
+	}
+	ast.Inspect(f, func(n ast.Node) bool {
+		switch x := n.(type) {
+		case *ast.Field:
+			if isChanType(x.Type) {
+				for _, nm := range x.Names {
+					out[nm.Name] = true
+				}
+			}
+		case *ast.ValueSpec:
+			for i, nm := range x.Names {
+				if (x.Type != nil && isChanType(x.Type)) || (i < len(x.Values) && isMakeChan(x.Values[i])) {
+					out[nm.Name] = true
+				}
+			}
+		case *ast.AssignStmt:
+			for i, l := range x.Lhs {
+				if id, ok := l.(*ast.Ident); ok && i < len(x.Rhs) && isMakeChan(x.Rhs[i]) {
+					out[id.Name] = true
+				}
+			}
+		}
+		return true
+	})
+	return out
+}
+
 func process(path, out string) error {
 	src, err := os.ReadFile(path)
 	if err != nil {
@@ -225,7 +290,7 @@ func process(path, out string) error {
 	if err != nil {
 		return err
 	}
-	r := &rewriter{fset: fset, file: fset.File(f.Pos()), src: src, skip: map[ast.Node]bool{}}
+	r := &rewriter{fset: fset, file: fset.File(f.Pos()), src: src, skip: map[ast.Node]bool{}, skipDeep: map[ast.Node]bool{}, chanNames: collectChanNames(f)}
 	// statements first (so that skip marks are set before their sub-expressions are visited)
 	ast.Inspect(f, func(n ast.Node) bool {
 		switch n.(type) {
